@@ -32,6 +32,8 @@
 -/
 import Dalek.Model.Recode
 import Dalek.Spec.Scalar
+import Dalek.Spec.Edwards
+import Dalek.Model.FastEdwards
 
 namespace Dalek.Model.ScalarMul
 open Dalek.Model.Recode Dalek.Spec
@@ -43,6 +45,11 @@ structure PointOps (G : Type) where
   sub : G → G → G
   neg : G → G
   double : G → G
+
+/-- The vector backends implement `&ExtendedPoint - &CachedPoint` as `self + &(-other)`
+(`backend/vector/{avx2,ifma}/edwards.rs`): the same operations with `sub` derived from `add` and `neg`. -/
+def vectorOps {G : Type} (ops : PointOps G) : PointOps G :=
+  { ops with sub := fun a b => ops.add a (ops.neg b) }
 
 /-- `none` = the Rust code panicked on an explicit assertion. -/
 abbrev Panics (α : Type) := Option α
@@ -422,5 +429,13 @@ end
 /-! ### the integers as a point implementation (sanity checks / executable tests) -/
 
 def intOps : PointOps Int := ⟨0, (· + ·), (· - ·), (- ·), fun x => x + x⟩
+
+/-! ### executable point implementations -/
+
+/-- the affine specification points (`Dalek.Spec.Pt`, complete twisted-Edwards addition law) -/
+def ptOps : PointOps Dalek.Spec.Pt := ⟨.zero, .add, .sub, .neg, .double⟩
+
+/-- extended coordinates with dalek's addition / doubling formulas (`Dalek.Model.EPt`) -/
+def eptOps : PointOps Dalek.Model.EPt := ⟨.zero, .add, .sub, .neg, .double⟩
 
 end Dalek.Model.ScalarMul
